@@ -5,6 +5,7 @@ cd "$(dirname "$0")"
 export CARGO_NET_OFFLINE=true
 cargo build --offline --release --manifest-path probe/Cargo.toml --target-dir .build/probe
 python3 tools/extract.py
+python3 tools/translate.py -q
 (cd lean && lake build Chess chessdrv)
 cargo build --offline --release --manifest-path harness/Cargo.toml --target-dir .build/harness
 cargo build --offline --profile checked --manifest-path harness/Cargo.toml --target-dir .build/harness
